@@ -57,6 +57,16 @@ def jXRs (l : List XR) : Json := jArr (l.map jXR)
 
 def errJ (e : Err) : Json := jErr e.toStr
 
+/-- all distinct arrangements of a list, in lexicographic order when the input is sorted -/
+partial def arrangements (l : List Rat) : List (List Rat) :=
+  match l with
+  | [] => [[]]
+  | _ =>
+    let ds := l.eraseDups
+    ds.flatMap (fun a => (arrangements (l.erase a)).map (fun r => a :: r))
+
+def minHist (p : XR) (hist : List XR) : XR := hist.foldl XR.npmin p
+
 def handle (op : String) (a : Json) : R Json := do
   let (cfg, test, e, b) ← parseInit (← fld a "init")
   match op with
@@ -72,6 +82,26 @@ def handle (op : String) (a : Json) : R Json := do
       match run sqrtRat cfg test x with
       | .ok (p, hist) => pure (jOk [("p", jXR p), ("hist", jXRs hist), ("m", jArr (mDiag.map jRat)), ("raw", jXRs raw)])
       | .error er => pure (errJ er)
+  | "risk" =>
+      -- for every distinct arrangement of the population (all equally likely under a uniformly random
+      -- order): the least reported p-value (history and overall) of the test run on the whole arrangement
+      let pop ← ratsF a "pop"
+      let arrs := arrangements pop
+      let res := arrs.map fun r =>
+        match run sqrtRat cfg test r with
+        | .ok (p, hist) => jXR (minHist p hist)
+        | .error er => Json.str ("err:" ++ er.toStr)
+      pure (jOk [("mins", jArr res), ("n", jNat arrs.length)])
+  | "risk_iid" =>
+      -- every sequence of length n over the support `vals` (IID draws): least reported p-value
+      let vals ← ratsF a "vals"
+      let n ← natF a "n"
+      let seqs := (List.range n).foldl (fun acc _ => acc.flatMap (fun s => vals.map (fun v => s ++ [v]))) [[]]
+      let res := seqs.map fun r =>
+        match run sqrtRat cfg test r with
+        | .ok (p, hist) => jXR (minHist p hist)
+        | .error er => Json.str ("err:" ++ er.toStr)
+      pure (jOk [("mins", jArr res), ("n", jNat seqs.length)])
   | "estim" =>
       let x ← ratsF a "x"
       match estim sqrtRat cfg e x with
